@@ -116,9 +116,10 @@ Ltac word_scan vi h fl mem r0 ld wf brk kidx c00 data cand Hv Hd Hm Hkidx Hld Hs
       destruct (dom_facts h fl mem (r0 + k) kidx Hv Hd ltac:(lia) Hkidx) as (?Hp & ?Hri & ?Hra & ?Hbig & ?Hii);
       unfold scanG in HG; cbn [fst] in HG; rewrite (Hld (r0 + k)%nat) in HG by lia; cbn [WMat.bind] in HG;
       let w := eval cbv beta in (wf (r0 + k)%nat) in
+      let tb := eval cbv beta iota in (match brk with Some b => N.testbit w (N.of_nat b) | None => false end) in
       (assert (Hcl : (w < 2 ^ 64)%N) by (nlt_solve2);
       destruct (lesser_LSB w d) eqn:EL;
-        [destruct (match brk with Some b => N.testbit w (N.of_nat b) | None => false end) eqn:ET|];
+        [destruct tb eqn:ET|];
         apply wok_inj in HG; subst y; [|split; [exact Hcl|]|split; [exact HI|]];
       (ex_late; loop_unfold Es; cm_run2; rewrite run_mzd_row_const_o by lia; cm_run2;
        match goal with |- context [run zops obs_prog LFUEL _ "m4ri_lesser_LSB" [Vint ?a; Vint ?b] _] =>
@@ -140,8 +141,62 @@ Ltac word_scan vi h fl mem r0 ld wf brk kidx c00 data cand Hv Hd Hm Hkidx Hld Hs
     unfold Ks; cbn [fst snd]; ex_close
   end.
 
+Lemma first_set_bit_lt d : forall len s l, first_set_bit d s len = Some l -> (s <= l < s + len)%nat.
+Proof.
+  induction len as [|len IH]; intros s l H; cbn [first_set_bit] in H; [discriminate|].
+  destruct (N.testbit d (N.of_nat s)).
+  - injection H as <-. lia.
+  - apply IH in H. lia.
+Qed.
+
+Ltac ex_close2 :=
+  unfold ex_res; eexists;
+  repeat match goal with
+         | |- Ok _ = Ok _ => f_equal
+         | |- LCont _ = LCont _ => f_equal
+         | |- LStop _ = LStop _ => f_equal
+         | |- ONormal _ _ = ONormal _ _ => f_equal
+         | |- (_, _) = (_, _) => f_equal
+         end; try reflexivity; first [ apply over_sub_eq; sub_solve | repeat f_equal; lia ].
+
+(** * The tactic for a bit search
+    vl: the bit variable; len: the number of bits searched; dsh: the word searched; cval b: the column stored for bit b.
+    Goal: exists e', exec CALL LFUEL L (over (tset vl 0 K) t) (mem2 ws 2 (tset (key 0) cand TLeaf)) =
+                     Ok (ONormal e' (mem2 ws 2 (pivot_cells (Some (cand, cval l))))) *)
+Ltac bit_search vl mem len dsh cval cand l Hfs :=
+  let Hfsb := fresh "Hfsb" in let Eb := fresh "Eb" in let Kb := fresh "Kb" in let tb := fresh "tb" in
+  let Hloopb := fresh "Hloopb" in
+  pose proof (fsb_iterG dsh len 0) as Hfsb; rewrite Hfs in Hfsb;
+  ex_late; k_unfold; cbn [tset];
+  match goal with |- context [exec zops ?cl LFUEL (Sloop ?cd ?bd ?st) (over ?A0 ?T0) ?M0] =>
+    pose (Eb := fun (k : nat) (_ : unit) (t : @env Z) =>
+      @pair (@env Z) (@CMini.mem Z) (over (tset vl (Vint (Z.of_nat k)) A0) t) M0);
+    pose (Kb := tdel vl A0);
+    replace (exec zops cl LFUEL (Sloop cd bd st) (over A0 T0) M0)
+      with (exec zops cl LFUEL (Sloop cd bd st) (fst (Eb 0%nat tt (over A0 T0))) (snd (Eb 0%nat tt (over A0 T0))))
+      by (unfold Eb; cbn [fst snd]; f_equal; symmetry; apply over_sub_eq; sub_solve);
+    destruct (loop_gen2 cl cd bd st unit (@env Z) nat Eb len (fsbG dsh)
+                (fun b t => ONormal (over Kb t)
+                   (mem2 (words mem) 2 (tset (key 1) (Z.of_nat (cval b)) (tset (key 0) (Z.of_nat cand) TLeaf))))
+                (fun _ t => ONormal (over Kb t) M0)
+                (fun _ _ => True))
+      with (s0 := tt) (t0 := over A0 T0) (x := @inr unit nat l)
+      as (tb & Hloopb & _);
+    [ let k := fresh "k" in let ti := fresh "ti" in let y := fresh "y" in let Hkb := fresh "Hkb" in
+      let HG := fresh "HG" in let ET := fresh "ET" in
+      intros k [] ti y Hkb _ HG; unfold fsbG in HG; apply wok_inj in HG; subst y;
+      destruct (N.testbit dsh (N.of_nat k)) eqn:ET; [|split; [exact I|]];
+      (ex_late; loop_unfold Eb; cm_run2; rewrite get_bit_tb by lia; rewrite Z_to_N_of_nat, ET; cbn [Z.b2z]; cm_run2;
+       unfold Kb; cbv beta; ex_close2)
+    | let ti := fresh "ti" in intros [] ti _; ex_late; loop_unfold Eb; cm_run2; unfold Kb; ex_close2
+    | exact I
+    | exact Hfsb
+    | lia
+    | ];
+    rewrite Hloopb; unfold ex_res, pivot_cells; eexists; reflexivity
+  end.
+
 (** * The first word (mzd.c:1719-1727) *)
-Set Ltac Backtrace.
 Section FirstWord.
   Variables (h : hdr) (fl : Z) (mem : list N) (r0 c0 : nat).
   Hypothesis Hv : valid h mem.
@@ -169,4 +224,26 @@ Section FirstWord.
     unfold L_scan1, M0. subst bo wo.
     word_scan 28%positive h fl mem r0 ld1 (fun i : nat => N.land (word_at mem (row_addr h i + c0 / 64)) (right_bitmask (64 - c0 mod 64))) (Some (c0 mod 64)%nat) (c0 / 64)%nat 0%nat data cand Hv Hd Hm HwoW Hld Hscan.
   Qed.
+
+  (** the bit search of the first word (mzd.c:1732-1737), on data >> bit_offset *)
+  Lemma wide_bits1 dsh cand l t :
+    first_set_bit dsh 0 (64 - bo) = Some l ->
+    exists e', exec zops CALL LFUEL L_bits1 (over (tset 32%positive (Vint 0) (Kw h fl r0 c0 dsh cand)) t)
+                 (mem2 (words mem) 2 (tset (key 0) (Z.of_nat cand) TLeaf)) =
+               Ok (ONormal e' (mem2 (words mem) 2 (pivot_cells (Some (cand, (c0 + l)%nat))))).
+  Proof.
+    intros Hfs. pose proof Hd as (D1 & D2 & D3 & D4 & D5 & D6).
+    pose proof (first_set_bit_lt _ _ _ _ Hfs) as Hl.
+    unfold L_bits1. subst bo wo.
+    bit_search 32%positive mem (64 - c0 mod 64)%nat dsh (fun b : nat => (c0 + b)%nat) cand l Hfs.
+  Qed.
 End FirstWord.
+
+(** re-indexing of [iterG] *)
+Lemma iterG_shift {St R} (G : nat -> St -> WMat.res (St + R)) a : forall d j s,
+  iterG (fun k => G (a + k)%nat) j d s = iterG G (a + j) d s.
+Proof.
+  induction d as [|d IH]; intros j s; cbn [iterG]; [reflexivity|].
+  destruct (G (a + j)%nat s) as [[s'|r]|e]; cbn [WMat.bind]; try reflexivity.
+  rewrite IH. now replace (a + S j)%nat with (S (a + j)) by lia.
+Qed.
